@@ -56,15 +56,19 @@ pub fn parse_form(s: &str, form: Form) -> Node {
 }
 fn normalise_xl(n: &Node) -> Node { let mut c = n.clone(); remove_redundant_implicit_intersection(&mut c, true); c }
 
-/// class of a structural round-trip failure, computed from the tree alone
-pub fn classify_pub(e: &Node, form: Form) -> Vec<String> { classify(e, form) }
-fn classify(e: &Node, form: Form) -> Vec<String> {
+/// class of a round-trip failure, computed from the tree alone. `assoc_explains` = the re-parsed
+/// tree is exactly the left-nested re-association of the original (the three pairs the printer
+/// leaves bare on purpose): then, and only then, the classes are `paren_dropped_associative:*`.
+pub fn classify_pub(e: &Node, form: Form, assoc_explains: bool) -> Vec<String> { classify(e, form, assoc_explains) }
+fn classify(e: &Node, form: Form, assoc_explains: bool) -> Vec<String> {
     let xlsx = form == Form::Xl;
-    let mut pairs = vec![];
-    bad_pairs(e, xlsx, &mut pairs);
-    if !pairs.is_empty() {
-        let mut seen = HashSet::new();
-        return pairs.into_iter().filter(|p| seen.insert(p.clone())).map(|p| format!("paren_missing:{p}")).collect();
+    if assoc_explains {
+        let mut pairs = vec![];
+        bad_pairs(e, xlsx, &mut pairs);
+        if !pairs.is_empty() {
+            let mut seen = HashSet::new();
+            return pairs.into_iter().filter(|p| seen.insert(p.clone())).map(|p| format!("paren_dropped_associative:{p}")).collect();
+        }
     }
     if let Some(g) = glue_class(e, form == Form::Rc) { return vec![format!("lexer_glue:{g}")]; }
     if contains(e, &|n| matches!(n, Node::ErrorKind(ironcalc_base::expressions::token::Error::NIMPL)) || array_has_error(n, true)) {
@@ -162,7 +166,10 @@ impl<'a> Run<'a> {
         self.or.checked += 1;
         let same = if form == Form::Xl { normalise_xl(&back) == normalise_xl(e) } else { back == *e };
         if !same {
-            for class in classify(e, form) {
+            // is the difference exactly the re-association the printer causes on purpose?
+            let re = reassoc(e);
+            let assoc = if form == Form::Xl { normalise_xl(&back) == normalise_xl(&re) } else { back == re };
+            for class in classify(e, form, assoc) {
                 self.or.fail(&class, json!({"form": form.name(), "tree": d, "printed": s, "reparsed": dump_s(&back, fns)}),
                     format!("{} form: tree [{}] prints as {:?} which parses to [{}]", form.name(), d, s, dump_s(&back, fns)));
             }
@@ -204,7 +211,7 @@ fn probe(args: &[String]) {
             let s = print_form(&n, fm);
             let m = parse_form(&s, fm);
             println!("  {:10} {s:30} same={} toks [{}]\n       -> {}   class {:?}", fm.name(), m == n,
-                tokens(&s, fm == Form::Rc, fm.locale(), fm.language()).join(" "), dump_s(&m, &fns), classify(&n, fm));
+                tokens(&s, fm == Form::Rc, fm.locale(), fm.language()).join(" "), dump_s(&m, &fns), classify(&n, fm, m == reassoc(&n)));
         }
     }
 }
